@@ -16,7 +16,7 @@
    CRLF / CR line ends, a BOM, and backslash-newline inside every literal and identifier.
    gcc -std=gnu11 is the tie-break: a vector on which gcc disagrees with the spec is not judged.
 """
-import json, os, re, threading
+import json, os, re, sys, threading
 import vt
 from vt import Infra
 
@@ -36,9 +36,16 @@ def render(i, c):
     s = bytes(c["src"])
     n = str(i).encode()
     if c["kind"] in ("int", "chr"):
-        return (b"static unsigned long g" + n + b" = " + s + b";\n"
-                b"static void f" + n + b"(void) { printf(\"R " + n + b" %lu %d %d %lu\\n\", (unsigned long)(" + s +
-                b"), (int)sizeof(" + s + b"), (typeof(" + s + b"))-1 < 0, g" + n + b"); }\n")
+        # the same constant in a #if: value (and, for integer constants, signedness: 6.10.1p4 intmax_t / uintmax_t)
+        v = int(c["val"])
+        lit = (b"(-%d)" % ((1 << 64) - v)) if c["neg"] and v >= 1 << 63 else (b"%d" % v) + (b"" if c["neg"] else b"u")
+        cond = b"(" + s + b") == " + lit
+        if c["kind"] == "int":
+            cond += b" && ((" + s + b") * 0 - 1 < 0) == %d" % c["ppneg"]
+        return (b"#if " + cond + b"\n#define PP" + n + b" 1\n#else\n#define PP" + n + b" 0\n#endif\n"
+                b"static unsigned long g" + n + b" = " + s + b";\n"
+                b"static void f" + n + b"(void) { printf(\"R " + n + b" %lu %d %d %lu %d\\n\", (unsigned long)(" + s +
+                b"), (int)sizeof(" + s + b"), (typeof(" + s + b"))-1 < 0, g" + n + b", PP" + n + b"); }\n")
     if c["kind"] == "flt":
         return (b"static double g" + n + b" = " + s + b";\n"
                 b"static void f" + n + b"(void) { printf(\"R " + n + b" %ld %d %ld\\n\", (long)((" + s +
@@ -64,7 +71,7 @@ def render(i, c):
 
 def expect(i, c):
     if c["kind"] in ("int", "chr"):
-        return "R %d %s %d %d %s" % (i, c["val"], c["size"], c["neg"], c["val"])
+        return "R %d %s %d %d %s 1" % (i, c["val"], c["size"], c["neg"], c["val"])
     if c["kind"] == "flt":
         return "R %d %d %d %d" % (i, c["val"], c["size"], c["val"])
     if c["kind"] == "str":
@@ -88,7 +95,7 @@ def sig_of(c, exp, got):
     if k == "flt":
         names = ["", "", "value", "size", "static-init-value"]
     elif k in ("int", "chr"):
-        names = ["", "", "value", "size", "sign", "static-init-value"]
+        names = ["", "", "value", "size", "sign", "static-init-value", "pp-if-value"]
     elif k == "str":
         names = ["", "", "size", "sign", "bytes", "static-array-bytes", "local-array-bytes"]
     else:
@@ -131,10 +138,10 @@ def run_batches(ctx, compiler, tree, cases, tag, per=250, xform=None):
             cmd = ["gcc", "-w", "-std=gnu11", "-finput-charset=UTF-8", "-o", exe, src]
         else:
             cmd = [tree + "/chibicc", "-I" + tree + "/include", "-o", exe, src]
-        p = vt.run_limited(cmd, timeout=300, mem_gb=6)
+        p = vt.run_limited(cmd, timeout=300, mem_gb=6, errors="replace")
         if p.returncode != 0:
             return bi, batch, ("compile", p.returncode, p.stderr[-600:]), src
-        r = vt.run_limited([exe], timeout=120, mem_gb=2)
+        r = vt.run_limited([exe], timeout=120, mem_gb=2, errors="replace")
         try:
             os.unlink(exe)
         except OSError:
@@ -220,6 +227,8 @@ def compare(ctx, tree, cases, tag, first=0, per=250, xform=None, xname=None, non
         for i, c, exp, got in bad:
             if gres.get(i) != exp:
                 ctx.oracle_disagreements += 1            # the spec disagrees with the reference compiler: not chibicc's fault
+                if os.environ.get("VERIF_VERBOSE"):
+                    print("oracle disagreement: %s\n  spec %s\n  gcc  %s\n  got  %s" % (describe(c), exp[:150], str(gres.get(i))[:150], got[:150]), file=sys.stderr)
                 continue
             ctx.report(pre + sig_of(c, exp, got), "%s: spec (=gcc) %s, chibicc %s" % (describe(c), exp[:200], got[:200]),
                        case=dict(kind=tag, case=jsonable(c), index=i, xform=xname, expected=exp[:20000], got=got[:20000], source=source_of(i, c, xform)[:200000]))
@@ -249,10 +258,10 @@ def run_diag(ctx, tree, cases):
         body = (b"unsigned long x = " + s + b";\n") if c.get("pfx") is None or s.rstrip()[-1:] == b"'" else \
             (b"static " + ELEM[c["pfx"]] + b" x[] = " + s + b";\n")
         open(f, "wb").write(body)
-        p = vt.run_limited([tree + "/chibicc", "-S", "-o", "/dev/null", f], timeout=30, mem_gb=2)
+        p = vt.run_limited([tree + "/chibicc", "-S", "-o", "/dev/null", f], timeout=30, mem_gb=2, errors="replace")
         g = None
         if p.returncode == 0 and not p.stderr.strip():
-            g = vt.sh(["gcc", "-std=gnu11", "-S", "-o", "/dev/null", f], timeout=30)
+            g = vt.sh(["gcc", "-std=gnu11", "-S", "-o", "/dev/null", f], timeout=30, errors="replace")
             g = g.returncode != 0 or bool(g.stderr.strip())
         return c, p.returncode, p.stderr, g, body
     for c, rc, err, g, body in vt.pmap(one, list(enumerate(cases)), workers=8):
@@ -273,6 +282,8 @@ int printf(const char *, ...);
 int main(void) {
   printf("R 0 %d %d %d %d\\n", (int)sizeof(wchar_t), (wchar_t)-1 < 0, (int)sizeof(L'a'), (typeof(L'a'))-1 < 0);
   printf("R 1 %d %d\\n", (int)sizeof(L""[0]), (typeof(L""[0]))-1 < 0);
+  int u = 1, U = 2, L = 3, u8 = 4, u8x = 5, Lx = 6;      /* the encoding prefixes are ordinary identifiers elsewhere */
+  printf("R 2 %d\\n", u+U*10+L*100+u8*1000+u8x*10000+Lx*100000 + (int)sizeof(u"")+(int)sizeof(U"")+(int)sizeof(L"")+(int)sizeof(u8""));
   return 0;
 }
 """
@@ -285,7 +296,11 @@ def run_headers(ctx, tree):
     p = vt.run_limited([tree + "/chibicc", "-I" + tree + "/include", "-o", d + "/h.exe", d + "/h.c"], timeout=60)
     out = vt.run_limited([d + "/h.exe"], timeout=20).stdout.split() if p.returncode == 0 else []
     ctx.note_case("hdr:wchar_t")
-    if len(out) != 10 or out[2:4] != out[4:6] or out[2:4] != out[8:10] or out[2:4] != ["4", "1"]:
+    ctx.note_case("hdr:prefix-identifiers")
+    if len(out) == 13 and out[12] != str(654321 + 2 + 4 + 4 + 1):
+        ctx.report("lex:prefix-letters-as-identifiers", "u, U, L, u8 used as identifiers next to prefixed literals: got %s" % out[12],
+                   case=dict(kind="hdr", source=HDR_PROG.decode()))
+    if len(out) != 13 or out[2:4] != out[4:6] or out[2:4] != out[8:10] or out[2:4] != ["4", "1"]:
         ctx.report("hdr:stddef:wchar_t", "wchar_t of the tree's <stddef.h> (size, signed) = %s but L'a' is %s and L\"\"[0] is %s (expected 4 1 everywhere)" % (out[2:4], out[4:6], out[8:10]),
                    case=dict(kind="hdr", source=HDR_PROG.decode()))
     ctx.cov["traces_validated_against_impl"] += 1
@@ -333,11 +348,13 @@ def run(ctx):
         lambda: tlc_gen(ctx, "LitInt", "LitInt.cfg", outs["int"], "convert_pp_int's ladder (Level I) differs from 6.4.4.1 (Level A)", Emit=True),
         lambda: tlc_gen(ctx, "LitStr", "LitStr.cfg", outs["str"], "character constant / string literal design differs from 6.4.4.4 / 6.4.5", Emit=True, Small=q),
         lambda: tlc_gen(ctx, "LitFlt", "LitFlt.cfg", outs["flt"], "floating constant model is inconsistent", workers=2, Emit=True),
-        lambda: c11_cp.tlc_utf(ctx, outs["utf"]),
-        lambda: c11_cp.tlc_phase(ctx),
-        lambda: (control(ctx, "LitInt", "LitInt.cfg", "skip-unsigned-hex"), control(ctx, "LitStr", "LitStr.cfg", "no-widen", Small=True, Fams='{"cat"}'),
-                 control(ctx, "LitStr", "LitStr.cfg", "U-sign-extends", Small=True, Fams='{"chr"}')),
+        lambda: control(ctx, "LitInt", "LitInt.cfg", "skip-unsigned-hex"),
+        lambda: control(ctx, "LitInt", "LitInt.cfg", "l-ignored-hex"),
+        lambda: control(ctx, "LitStr", "LitStr.cfg", "no-widen", Small=True, Fams='{"cat"}'),
+        lambda: control(ctx, "LitStr", "LitStr.cfg", "U-sign-extends", Small=True, Fams='{"chr"}'),
     ]
+    more = c11_cp.tlc_jobs(ctx, outs["utf"])
+    jobs = [jobs[1], jobs[0], more[0], jobs[2], more[3]] + jobs[3:] + [more[1], more[2], more[4], more[5]]    # generators first
     errs = []
 
     def guarded(j):
@@ -345,7 +362,7 @@ def run(ctx):
             j()
         except Exception as e:                         # re-raised below in the main thread
             errs.append(e)
-    vt.pmap(guarded, jobs, workers=5)
+    vt.pmap(guarded, jobs, workers=6)
     if errs:
         raise errs[0]
     ctx.phase("models done")
@@ -362,8 +379,9 @@ def run(ctx):
         raise Infra("generators wrote only %d integer / %d character+string cases" % (len(ints), len(strs)))
     # quick: every escape form x prefix (character constants, one-item strings) is always replayed;
     # the seed subsamples the integer grid, the two-item bodies and the concatenations
-    core = [c for c in strs if c["kind"] == "chr" or (c.get("fam") == "str" and len(c["kinds"]) <= 1)]
-    rest = [c for c in strs if not (c["kind"] == "chr" or (c.get("fam") == "str" and len(c["kinds"]) <= 1))]
+    is_core = lambda c: c["kind"] == "chr" or c.get("fam") == "seq" or (c.get("fam") == "str" and len(c["kinds"]) <= 1)
+    core = [c for c in strs if is_core(c)]
+    rest = [c for c in strs if not is_core(c)]
     sel_i = vt.subsample(ints, ctx.seed, 3 if q else 1)
     sel_s = core + vt.subsample(rest, ctx.seed, 3 if q else 1)
     for c in (sel_i[len(sel_i) // 2], core[len(core) // 3], rest[len(rest) // 2]):
@@ -384,7 +402,11 @@ def run(ctx):
         "target model: LP64, plain char signed, wchar_t = int, char16_t = unsigned short, char32_t = unsigned int, execution character sets UTF-8/UTF-16/UTF-32 (gcc's defaults on x86-64 Linux)",
         "not generated (implementation-defined or constraint violations): multi-character constants, character constants whose code point needs more than one element, escapes out of range of the element type, decimal constants without a signed type, differently prefixed adjacent literals, UCNs below 00A0 / in D800-DFFF / above 10FFFF, ill-formed UTF-8 in source text (decode_utf8 on ill-formed input is judged separately through the linked harness)",
         "Level A was validated against gcc 12 on the whole generated domain at development time; at check time gcc only discards vectors on which it disagrees with the spec",
+        "character constants in #if are expected to have the value they have in expressions (6.10.1p4 leaves the match implementation-defined; gcc documents it and chibicc has one tokenizer for both)",
         "long and long long are not distinguishable (chibicc has one 64-bit type): types are observed as sizeof + signedness"]
+    if ctx.oracle_disagreements or ORACLE_CHECK:
+        print("NOTE C11: %d vector(s) on which gcc disagrees with the specification were not judged%s" % (
+            ctx.oracle_disagreements, " (oracle check mode: gcc was the compiler under test)" if ORACLE_CHECK else ""))
     return ctx.finish(
         rule="case = one literal (or one run of code points in one literal / one identifier set) written by LitInt/LitStr/LitUtf.tla, compiled by the tree's chibicc and compared on value, sizeof, signedness and object bytes, or one code-point row replayed on unicode.c, or one re-encoding (line ends, BOM, splice position) of a program of such literals; distinct = distinct source text per replay mode; non-trivial = integer magnitude > 1, every other case",
         exhaustive=not q,
